@@ -382,15 +382,19 @@ func (i *insertExecutor) parsePkValuesFromStatement(insertStmt *ast.InsertStmt, 
 				pkValue := row[pkIndex]
 				pkValueStr, ok := pkValue.(string)
 				if ok && strings.EqualFold(pkValueStr, sqlPlaceholder) {
-					currentRowNotPlaceholderNumBeforePkIndex := 0
-					for i := range row {
-						r := row[i]
-						rStr, ok := r.(string)
-						if i < pkIndex && ok && !strings.EqualFold(rStr, sqlPlaceholder) {
-							currentRowNotPlaceholderNumBeforePkIndex++
+					// the argument of this placeholder: the placeholders of the rows before plus
+					// those of this row before the key column (whatever else stands there: a
+					// number, NULL, DEFAULT, an expression or a string)
+					placeholderNumBeforePkIndex := 0
+					for i := 0; i < pkIndex; i++ {
+						if rStr, ok := row[i].(string); ok && strings.EqualFold(rStr, sqlPlaceholder) {
+							placeholderNumBeforePkIndex++
 						}
 					}
-					idx := totalPlaceholderNum - currentRowPlaceholderNum + pkIndex - currentRowNotPlaceholderNumBeforePkIndex
+					idx := totalPlaceholderNum - currentRowPlaceholderNum + placeholderNumBeforePkIndex
+					if idx < 0 || idx >= len(nameValues) {
+						return nil, fmt.Errorf("the statement has more placeholders than arguments")
+					}
 					pkValues = append(pkValues, nameValues[idx].Value)
 				} else {
 					pkValues = append(pkValues, pkValue)
